@@ -486,12 +486,14 @@ def rule_raceok(ctx, M, u):
         W = [b for b, slot, idx, v, w in slot_writes(bi) if slot_is_child(M, u, c, slot, idx, b) and bi.guarded_by(b, ee)]
         S = [b for b in state_sets_for(M, u, c, ("Ready",)) if bi.guarded_by(b, ee)]
         probs = ordered(bi, [t for _, t in ee], [("error slot write", W), ("state:=Ready", S)], exits, avoid)
-        incs = [b for b, pt, d, sp in scan.increments(bi) if pt == scan.self_field("completed") and d == 1 and bi.guarded_by(b, ee)]
-        ok, bad = bi.must_reach([t for _, t in ee], incs, exits)
-        if not incs or not ok:
-            r = bi.body.reach([t for _, t in ee], avoid_blocks=incs, stop_blocks=exits, avoid_edges=avoid)
-            if not incs or any(b in r for b in exits):
-                probs.append("completed counter not incremented on the Err path")
+        # the counter moves once on every path that leads from the child's Ready edge through its Err edge to the end
+        # of the iteration (the increment may sit before the Ok/Err split)
+        re_ = bi.outcome_edges(c.site, "Ready")
+        oke = bi.outcome_edges(c.site, "Ready", "Ok")
+        incs = [b for b, pt, d, sp in scan.increments(bi) if pt == scan.self_field("completed") and d == 1 and bi.guarded_by(b, re_)]
+        r = bi.body.reach([t for _, t in re_], avoid_blocks=incs, stop_blocks=exits, avoid_edges=list(avoid) + list(oke))
+        if not incs or not re_ or any(b in r for b in exits):
+            probs.append("completed counter not incremented on the Err path")
         loose = [b for b, slot, idx, v, w in slot_writes(bi) if slot_is_child(M, u, c, slot, idx, b) and not bi.guarded_by(b, ee)]
         if loose:
             probs.append("error slot written outside the child's Err edge")
@@ -743,6 +745,10 @@ def rule_who(ctx, M):
             continue
         cdef = b.j["cdef"]
         root_ok = b.def_ in owners or b.root in owners
+        hc = F.d.get("helper_callers", {}).get(b.root)
+        if not root_ok and hc:
+            # a closure of a helper that was inlined into its callers: as allowed as all of those callers
+            root_ok = all(r in owners for r in hc)
         util_ok = any(x in ("::" + cdef) for x in allowed_utils) or b.name in LOCAL_UNSAFE
         # closures of owner bodies (for_each destructor closure)
         if root_ok or util_ok:
